@@ -157,9 +157,13 @@ def dimIsLinear (ops : NumOps) (d : List Num) (length : Nat) : Bool :=
   | .ok e => vecEq ops d e
   | .error _ => false
 
+def Num.isInt : Num → Bool
+  | .int _ => true
+  | .flt _ => false
+
 /-- what `create_dataset(data=<python sequence or array>)` stores: ints stay ints unless a float is among them -/
 def storeVec (ops : NumOps) (xs : List Num) : List Num :=
-  if xs.all (fun x => match x with | .int _ => true | .flt _ => false) then xs else xs.map ops.toFlt
+  if xs.all Num.isInt then xs else xs.map ops.toFlt
 
 /-- `Array.to_h5`: the datasets written into the node's group (the metadata bundle is added by `Node.to_h5`) -/
 def ArrayVal.toBody (ops : NumOps) (a : ArrayVal) : List (String × Obj) :=
@@ -176,37 +180,53 @@ def strAttr (o : Obj) (k : String) : R String :=
   | some (.str s) => pure s
   | _ => throw (.error ("missing attribute " ++ k))
 
-/-- `Array._get_constructor_args` followed by `Array(**args)`: `dataShape` is the shape h5py reports for `data` -/
-def ArrayVal.fromBody (ops : NumOps) (dataShape : List Nat) (body : List (String × Obj)) : R ArrayVal := do
-  let (tok, units) ← match alookup "data" body with
-    | some (.dataset a (.tok t)) => do
-      let u ← strAttr (.dataset a (.tok t)) "units"
-      pure (t, u)
-    | _ => throw (.error "no data")
-  let rank := dataShape.length
-  -- 0-dimensional data has no dim vectors at all
-  let lastDim : Option Obj ← if rank == 0 then pure none else
+/-- the `data` dataset: its token and its `units` attribute -/
+def readData (body : List (String × Obj)) : R (String × String) :=
+  match alookup "data" body with
+  | some (.dataset a (.tok t)) => do
+    let u ← strAttr (.dataset a (.tok t)) "units"
+    pure (t, u)
+  | _ => throw (.error "no data")
+
+/-- the dataset after the last axis of the data (none for 0-dimensional data, which has no dim vectors at all) -/
+def readLastDim (rank : Nat) (body : List (String × Obj)) : R (Option Obj) :=
+  if rank == 0 then pure none else
     match alookup (autoName "dim" (rank - 1)) body with
     | some o => pure (some o)
     | none => throw (.error "last dim not found")
-  let isStack ← match lastDim with
-    | none => pure false
-    | some o => do
-      let lastName ← strAttr o "name"
-      pure (lastName == "_labels_")
+
+/-- stack detection: the last dim dataset is called `_labels_` -/
+def readIsStack : Option Obj → R Bool
+  | none => pure false
+  | some o => do
+    let lastName ← strAttr o "name"
+    pure (lastName == "_labels_")
+
+/-- one axis: its vector, units and name -/
+def readDimTriple (body : List (String × Obj)) (n : Nat) : R (DimArg × String × String) :=
+  match alookup (autoName "dim" n) body with
+  | some (.dataset a (.nums xs)) => do
+    let u ← strAttr (.dataset a (.nums xs)) "units"
+    let nm ← strAttr (.dataset a (.nums xs)) "name"
+    pure (DimArg.vec xs, u, nm)
+  | _ => throw (.error "dim not found")
+
+def readLabels (isStack : Bool) (lastDim : Option Obj) : R LabelArg :=
+  if isStack then
+    match lastDim with
+    | some (.dataset _ (.strs ls)) => pure (LabelArg.given ls)
+    | _ => throw (.error "labels are not strings")
+  else pure LabelArg.none
+
+/-- `Array._get_constructor_args` followed by `Array(**args)`: `dataShape` is the shape h5py reports for `data` -/
+def ArrayVal.fromBody (ops : NumOps) (dataShape : List Nat) (body : List (String × Obj)) : R ArrayVal := do
+  let (tok, units) ← readData body
+  let rank := dataShape.length
+  let lastDim ← readLastDim rank body
+  let isStack ← readIsStack lastDim
   let normal := if isStack then rank - 1 else rank
-  let triples ← (List.range normal).mapM (fun n =>
-    match alookup (autoName "dim" n) body with
-    | some (.dataset a (.nums xs)) => do
-      let u ← strAttr (.dataset a (.nums xs)) "units"
-      let nm ← strAttr (.dataset a (.nums xs)) "name"
-      pure (DimArg.vec xs, u, nm)
-    | _ => throw (.error "dim not found"))
-  let lab ← if isStack then
-      match lastDim with
-      | some (.dataset _ (.strs ls)) => pure (LabelArg.given ls)
-      | _ => throw (.error "labels are not strings")
-    else pure LabelArg.none
+  let triples ← (List.range normal).mapM (readDimTriple body)
+  let lab ← readLabels isStack lastDim
   mkArray ops tok dataShape units (some (triples.map (·.1))) (some (triples.map (·.2.2))) (some (triples.map (·.2.1))) lab
 
 /-- `ar[label]` / `get_slice(label)`: the index the label addresses (`Labels._dict`: the last occurrence wins) -/
